@@ -53,6 +53,7 @@ type ledgerRun struct {
 	preGate  bool
 	gateBroken bool
 	note     string              // what the harness just did (appended to failure messages)
+	hist     string              // what is special about this history (appended to failure messages)
 	prevSupply  map[types.ZenonTokenStandard]*big.Int // recorded supplies at the previous state comparison
 	expectDelta map[types.ZenonTokenStandard]*big.Int // supply changes the momentum's token-contract receives account for (nil: no check)
 	deltaWhy    []string
@@ -70,6 +71,9 @@ func (r *ledgerRun) fail(format string, a ...interface{}) {
 	note := ""
 	if r.note != "" {
 		note = " [" + r.note + "]"
+	}
+	if r.hist != "" {
+		note += " {history: " + r.hist + "}"
 	}
 	r.c.Fail("ledger run=%d h=%d: %s%s", r.id, r.n.Height(), fmt.Sprintf(format, a...), note)
 }
@@ -628,15 +632,17 @@ func ledgerHistory(c *Ctx, id int) {
 	// (legal: the genesis check demands total <= max), with ten-minute reward epochs so that the contracts' reward mints
 	// (liquidity rewards at the epoch update, CollectReward of pillars / stakers / sentinels) meet the cap inside the history
 	tight := c.Args["caps"] == "tight" || (c.Args["caps"] == "" && id%4 == 2)
+	tightDesc := ""
 	if tight {
 		restore, desc := ledgerTightCaps(c, id)
 		defer restore()
 		c.Hit("history-tight-caps")
 		c.Hit("history-tight-caps:" + desc)
+		tightDesc = "mock genesis with MaxSupply = TotalSupply + delta, " + desc + " (E = first epoch's liquidity reward), 10-minute reward epochs"
 	}
 	n := NewNode()
 	defer n.Stop()
-	r := &ledgerRun{c: c, n: n, id: id, sends: map[types.Hash]*sendRec{}, addrs: map[types.Address]bool{}, tokens: map[types.ZenonTokenStandard]bool{},
+	r := &ledgerRun{hist: tightDesc, c: c, n: n, id: id, sends: map[types.Hash]*sendRec{}, addrs: map[types.Address]bool{}, tokens: map[types.ZenonTokenStandard]bool{},
 		toContractOrder: map[types.Address][]types.Hash{}, contractRecvd: map[types.Address]int{}, preGate: preGate, undo: map[uint64][]func(){}}
 	gate := "post"
 	if preGate {
